@@ -215,10 +215,10 @@ class ShapeAnalyzer:
             sel = dists < radius
             close = positions[sel.flatten()]
 
-            # digitize differences to move all close positions to
-            # same sphere around coordr
-            offsets = np.digitize(close - sym_coords, bins=[0.5, -0.4999999]) - 1
-            close += offsets
+            # move all close positions to their periodic image nearest to `sym_coords`,
+            # so that they are in the same sphere around it (`sym_coords` can be any
+            # number of unit cells away from the positions)
+            close = close - np.round(close - sym_coords)
 
             inversed = op.inverse.operate_multi(close)
 
